@@ -565,6 +565,27 @@ theorem solveNormalizedCubic_two (F : CubicFns α) (r s t : α) (w : α)
         · right; rw [← h3']; linear_combination h1
         · left; rw [← h3']; linear_combination h1
     · rintro (h | h) <;> rw [h] <;> ring
+/-- the D ≤ 0 arm for ANY value S of the literal `sqrt3` (no `S * S = 3`): the first value written is an exact root, the
+other two have the residuals -(3a ± bS)·b²·(S² - 3); the three values always sum to -r -/
+theorem cubicComplex_residuals (F : CubicFns α) (r s t : α) (w : α)
+    (hD : cubicD r s t ≤ 0) (hnt : ¬ (cubicD r s t = 0 ∧ cubicP r s / 3 = 0))
+    (hcsqrt : F.csqrt (cubicD r s t, 0) = (0, w) ∧ w * w = -cubicD r s t)
+    (hcube : cmul (cmul (cubicU F r s t) (cubicU F r s t)) (cubicU F r s t) = (-(cubicQ r s t) / 2, w)) :
+    ∃ a b x0 x1 x2, cubicU F r s t = (a, b) ∧
+      x0 = 2 * a - r / 3 ∧ x1 = -a - b * F.sqrt3 - r / 3 ∧ x2 = -a + b * F.sqrt3 - r / 3 ∧
+      cubicComplex F r s t = (if cubicD r s t == 0 then (2, [x0, x1]) else (3, [x0, x1, x2])) ∧
+      x0 * x0 * x0 + r * (x0 * x0) + s * x0 + t = 0 ∧
+      x1 * x1 * x1 + r * (x1 * x1) + s * x1 + t = -((3 * a + b * F.sqrt3) * (b * b) * (F.sqrt3 * F.sqrt3 - 3)) ∧
+      x2 * x2 * x2 + r * (x2 * x2) + s * x2 + t = -((3 * a - b * F.sqrt3) * (b * b) * (F.sqrt3 * F.sqrt3 - 3)) ∧
+      x0 + x1 + x2 = -r ∧ x0 - x1 = 3 * a + b * F.sqrt3 ∧ x0 - x2 = 3 * a - b * F.sqrt3 ∧
+      x1 - x2 = -(2 * b * F.sqrt3) ∧
+      cubicD r s t = -(b * b * ((3 * a * a - b * b) * (3 * a * a - b * b))) := by
+  obtain ⟨a, b, hu, hp, hq, hn, hDab, hform⟩ := cubicComplex_form F r s t w hD hnt hcsqrt hcube
+  refine ⟨a, b, 2 * a - r / 3, -a - b * F.sqrt3 - r / 3, -a + b * F.sqrt3 - r / 3, hu, rfl, rfl, rfl, hform,
+    ?_, ?_, ?_, by ring, by ring, by ring, by ring, hDab⟩
+  · have := depressed r s t (2 * a); rw [hp, hq] at this; linear_combination this
+  · have := depressed r s t (-a - b * F.sqrt3); rw [hp, hq] at this; linear_combination this
+  · have := depressed r s t (-a + b * F.sqrt3); rw [hp, hq] at this; linear_combination this
 end Counts
 
 /-! ### vocabulary of the T-route tie (Props/C17.lean `gen_solve…`; also imported by the check's failing-input search) -/
